@@ -58,7 +58,12 @@ type lzEnt struct {
 	present bool
 	tok     string
 	e       int64
+	// doomed: the entry had been expired longer than DeleteExpiredAfter when an ExpireAll re-stamped
+	// it; a cleanup cycle that examined it before the re-stamp may still remove it afterwards
+	doomed bool
 }
+
+const lzDeleteExpiredAfter = int64(time.Hour)
 
 func lzVariants(s lzState, i int, alts []lzEnt) []lzState {
 	out := make([]lzState, 0, len(alts))
@@ -154,6 +159,10 @@ var lzModel = (&porcupine.NondeterministicModel{
 				t := e
 				t.e = in.now
 
+				if e.e != 0 && e.e < in.now-lzDeleteExpiredAfter {
+					t.doomed = true
+				}
+
 				if e.e != 0 && e.e < in.now {
 					return []lzEnt{e, t} // already expired: keeps its older expiry or gets the ExpireAll instant
 				}
@@ -175,6 +184,10 @@ var lzModel = (&porcupine.NondeterministicModel{
 			return lzBatch(s, func(e lzEnt) []lzEnt {
 				if e.present && e.e != 0 && e.e < in.e {
 					return []lzEnt{{}}
+				}
+
+				if e.present && e.doomed {
+					return []lzEnt{e, {}}
 				}
 
 				return []lzEnt{e}
